@@ -41,18 +41,22 @@ class DefaultsShapeH(Harness):
     def setup(self, c, case):
         repo = c.repo
         cc = repo.load("puan.modules.configurator")
-        rules = []
-        for kind, vid, items, default in RULES:
-            rules.append(getattr(cc, kind)(*items, default=list(default), variable=vid))
         b, d = repo.puan.variable("b"), repo.puan.variable("d")
         plain = _rule(c, repo, "Zrule", [b, d], case["sign"])
-        cfg = cc.StingyConfigurator(*rules, plain, id=case["cfg"])
-        return {"cfg": cfg, "rules": rules}
+        # a named sub-proposition the caller owns: it is the ONLY non-default alternative of the third rule, and it may be used
+        # elsewhere as well -- building a rule around it must not write to it
+        shared = repo.plog.All("p", "q", variable="S")
+        return {"plain": plain, "shared": shared, "cc": cc}
 
     def run(self, c, st):
         c.nd_epoch = 1
-        cfg = st["cfg"]
-        return {"dp": cfg.default_prios, "poly": cfg.ge_polyhedron}
+        cc = st["cc"]
+        rules = []
+        for kind, vid, items, default in RULES:
+            rules.append(getattr(cc, kind)(*items, default=list(default), variable=vid))
+        rules.append(cc.Any("e2", st["shared"], default=["e2"], variable="w"))
+        cfg = cc.StingyConfigurator(*rules, st["plain"], id=c.state_case["cfg"])
+        return {"dp": cfg.default_prios, "poly": cfg.ge_polyhedron, "rules": rules, "shared_tag": getattr(st["shared"], "prio", None)}
 
     def ensures(self, c, st, res):
         out = []
@@ -63,7 +67,8 @@ class DefaultsShapeH(Harness):
             for k in getattr(n, "propositions", None) or []:
                 walk(k, acc)
             return acc
-        for (kind, vid, items, default), rule in zip(RULES, st["rules"]):
+        out.append(("shape.defaults.caller's-proposition-untagged", res["shared_tag"] is None))
+        for (kind, vid, items, default), rule in zip(RULES + (("Any", "w", ["e2", "S"], ["e2"]),), res["rules"]):
             found = None
             for n in walk(rule, []):
                 kids = list(getattr(n, "propositions", None) or [])
@@ -116,6 +121,20 @@ class DefaultsShapeH(Harness):
                 violated.append("shape.defaults.structure"); detail[vid] = rule.to_text()
             else:
                 branches.add(found)
+        shared = pg.All("p", "q", variable="S")
+        rule = cc.Any("e2", shared, default=["e2"], variable="w")
+        rules.append(rule)
+        found = None
+        for n in rule.flatten():
+            kids = getattr(n, "propositions", None)
+            if kids and len(kids) == 2 and any(k.id == "e2" for k in kids) and any(hasattr(k, "propositions") and [x.id for x in k.propositions] == ["S"] for k in kids):
+                found = [k for k in kids if hasattr(k, "propositions")][0].id
+        if found is None:
+            violated.append("shape.defaults.structure"); detail["w"] = rule.to_text()
+        else:
+            branches.add(found)
+        if getattr(shared, "prio", None) is not None:
+            violated.append("shape.defaults.caller's-proposition-untagged"); detail["S.prio"] = shared.prio
         plain = pg.AtLeast(w.get("value", 1), [puan.variable("b"), puan.variable("d")], variable="Zrule", sign=w["case"]["sign"])
         cfg = cc.StingyConfigurator(*rules, plain, id=w["case"]["cfg"])
         poly, dp = cfg.ge_polyhedron, cfg.default_prios
